@@ -248,6 +248,44 @@ pub fn run(ctx: &Ctx, rep: &mut Report) {
         }
         super::history2(rep, judge, &items);
     }
+    // every value whose set bits lie in at most two of the four 13-bit suit blocks: all 2^13 x 2^13 combinations for each
+    // of the 10 block pairs (a decode that adds, folds or xors the suit blocks is wrong only for many-bit values)
+    {
+        let t0 = Instant::now();
+        let kind = monitor::kind_id("from_binary_card");
+        let mut pairs = Vec::new();
+        for a in 0..4u32 {
+            for b in a..4u32 {
+                pairs.push((a, b));
+            }
+        }
+        let accs = par_parts(pairs.len() * 64, |j| {
+            let (a, b) = pairs[j / 64];
+            let part = (j % 64) as u64;
+            let mut acc = Acc::new(1);
+            monitor::beat(kind, &[a as u64, b as u64, part]);
+            for x in (part * 128)..((part + 1) * 128) {
+                for y in 0..8192u64 {
+                    let v = (x << (13 * a)) | (y << (13 * b));
+                    acc.cases += 1;
+                    acc.calls += 1;
+                    let e = model_to_word(v);
+                    if e != 0 {
+                        acc.nontrivial += 1;
+                    }
+                    if !matches!(guard(|| CKCNumber::from_binary_card(v)), Ok(w) if w == e) {
+                        match confirm(judge, Case::new("from_binary_card", &[v])) {
+                            Some(vv) => acc.violate(vv),
+                            None => super::unreproduced("C14 suit-block mismatch not reproduced"),
+                        }
+                    }
+                }
+            }
+            acc
+        });
+        let acc = Acc::merged(accs);
+        rep.add_space("from_binary_card: every value confined to two of the four 13-bit suit blocks (10 block pairs x 2^26)", &acc, t0, "a card of one suit together with any subset of another (or the same) suit");
+    }
     let _ = PokerCard::is_blank(&0u32);
     rep.rule = "distinct words / distinct 64-bit values; non-trivial = inputs that denote a real card (must map to exactly that card's other form)".into();
     rep.bound = "word -> bit complete (2^32). bit -> word: all values with <= 3 or >= 61 bits set, all values confined to 28-bit windows, named masks; the remaining 64-bit values are outside (an exact 52-arm match cannot tell them from the explored multi-bit values, but that is an argument, not an enumeration)".into();
